@@ -13,11 +13,12 @@
          output = _run_mapping(...)       # copies inputs, marker cache, assignment (pool),
                                           # CSV, obsm; returns dict with `results`
          if summary_metadata_path: output.pop('n_unmapped_genes'); write summary
-         _clean_up(tmp_result_dir)
          log.info("MAPPING FROM SPECIFIED MARKERS RAN SUCCESSFULLY")
      except Exception:
          log.add_msg(traceback); raise
      finally:
+         _clean_up_result_buffer(tmp_result_dir)    # on EVERY path (since the repair of F9: before
+                                                    # it, the last step of the success path only)
          _clean_up(tmp_dir); log.info("CLEANING UP"); log.write_log(log_path)
          output["config"], output["log"], output["metadata"] (, gene_identifier_mapping)
          write JSON; blob_to_hdf5 (metadata only unless results and taxonomy_tree present) *)
@@ -101,16 +102,16 @@ Definition try_body (c : cfg) (fail : option point) : list eff * list key * bool
       if has_summary c then
         if fails_at fail PSummary
         then (MkResultBuf :: fst i ++ [Fail PSummary], remove_key KNUnmapped out, true)
-        else (MkResultBuf :: fst i ++ [WriteSummary; CleanResultBuf; LogSuccess],
+        else (MkResultBuf :: fst i ++ [WriteSummary; LogSuccess],
               remove_key KNUnmapped out, false)
-      else (MkResultBuf :: fst i ++ [CleanResultBuf; LogSuccess], out, false)
+      else (MkResultBuf :: fst i ++ [LogSuccess], out, false)
   end.
 
 Definition opt (b : bool) (e : eff) : list eff := if b then [e] else [].
 
 Definition finally_part (c : cfg) (output : list key) : list eff :=
   let keys := output ++ [KConfig; KLog; KMetadata] ++ (if has_gene_map c then [KGeneMapping] else []) in
-  opt (has_tmp c) CleanTmp ++ [LogCleaning] ++ opt (has_log_path c) WriteLogFile ++
+  [CleanResultBuf] ++ opt (has_tmp c) CleanTmp ++ [LogCleaning] ++ opt (has_log_path c) WriteLogFile ++
   opt (has_json c) (WriteJson keys) ++
   opt (has_hdf5 c) (WriteHdf5 (remove_key KResults keys)
                               (has_key KTaxonomyTree keys && has_key KResults keys)).
@@ -161,6 +162,23 @@ Definition assign_fail (r : pres) : option point :=
 Definition finally_keys (c : cfg) : list key :=
   [KConfig; KLog; KMetadata] ++ (if has_gene_map c then [KGeneMapping] else []).
 
+(* does the first effect tagged a come strictly before the first effect tagged b (both present)? *)
+Definition before (a b : Z) (tr : list eff) : bool :=
+  match index_of a tr, index_of b tr with Some i, Some j => (i <? j)%nat | _, _ => false end.
+
+(* the result buffer directory made at the top of `try` is removed again, in the `finally`
+   block: after whatever failed (Fail) and after the traceback went to the log, before the
+   run's own tmp directory is removed and before anything is written at the outputs *)
+Definition buffer_cleaned_trace (c : cfg) (tr : list eff) : bool :=
+  before 3 10 tr &&
+  implb (has_eff 12 tr) (before 12 10 tr && before 13 10 tr) &&
+  implb (has_tmp c) (before 10 14 tr) &&
+  before 10 15 tr &&
+  implb (has_eff 16 tr) (before 10 16 tr) && implb (has_eff 17 tr) (before 10 17 tr) &&
+  implb (has_eff 18 tr) (before 10 18 tr) && implb (has_eff 19 tr) (before 10 19 tr).
+Definition buffer_cleaned (c : cfg) (fail : option point) : bool :=
+  buffer_cleaned_trace c (fst (run_mapping c fail)).
+
 (* ---- executable statements of C14 on an effect trace (also evaluated by the harness on
    the effects OBSERVED on the real run_mapping) *)
 (* the clauses of the property itself: the call raises; no success message; no result
@@ -184,7 +202,7 @@ Definition prop_trace_ok (c : cfg) (tr : list eff) (raised : bool) : bool :=
 Definition failed_trace_ok (c : cfg) (tr : list eff) (raised : bool) : bool :=
   prop_trace_ok c tr raised &&
   has_eff 19 tr &&                                      (* Reraise is the last thing *)
-  negb (has_eff 10 tr) &&                               (* (result buffer not cleaned: C19) *)
+  buffer_cleaned_trace c tr &&                          (* result buffer removed, in `finally` (C19) *)
   has_eff 13 tr &&                                      (* traceback added to the log *)
   (match json_keys tr with                              (* JSON written iff requested, all keys *)
    | Some ks => has_json c && forallb (fun k => has_key k ks) (finally_keys c)
@@ -203,7 +221,8 @@ Definition no_csv (c : cfg) (fail : option point) : bool := no_csv_trace (fst (r
 
 (* success path, for contrast (and so that the statement above is not vacuous) *)
 Definition clean_trace_ok (c : cfg) (tr : list eff) (raised : bool) : bool :=
-  negb raised && has_eff 11 tr && negb (has_eff 13 tr) && negb (has_eff 19 tr) && has_eff 10 tr &&
+  negb raised && has_eff 11 tr && negb (has_eff 13 tr) && negb (has_eff 19 tr) &&
+  buffer_cleaned_trace c tr && before 11 10 tr &&
   implb (has_csv c) (has_eff 7 tr) &&
   (match json_keys tr with Some ks => has_key KResults ks | None => negb (has_json c) end) &&
   (match hdf5_obs tr with Some (_, b) => b | None => negb (has_hdf5 c) end).
